@@ -22,6 +22,7 @@ func propC17(c *Ctx) propInfo {
 	c.errflow(excC17E2, "ton")
 	c.radixDiscipline("E11.radix", "ton", "liteclient", "utils")
 	c.addressBufferSizes()
+	c.wireSizes("liteclient") // the ADNL base32 form: checksum buffer of exactly two bytes
 	const R = "E8.mustcheck"
 	if f := c.mustFn(R, "ton", "AccountIDFromBase64Url"); f != nil {
 		c.mustDominate(R, f, 1, []requiredCheck{
